@@ -4,7 +4,7 @@ use crate::cs::Cs;
 use crate::engine::*;
 use rspirv::sr::storage::{Storage, Token};
 
-#[derive(Clone, Debug)]
+#[derive(Clone, Debug, Default)]
 struct Keyed {
     key: u8,
     payload: u32,
@@ -15,7 +15,7 @@ impl PartialEq for Keyed {
     }
 }
 
-trait Val: Clone + PartialEq + std::fmt::Debug {
+trait Val: Clone + PartialEq + std::fmt::Debug + Default {
     /// `wide` = 0: the small default alphabet; otherwise values from an alphabet of `wide` elements
     fn gen(cs: &mut Cs, serial: u32, wide: usize) -> Self;
     fn same(&self, o: &Self) -> bool;
@@ -66,7 +66,8 @@ fn run_ops<T: Val>(cs: &mut Cs, st: &mut Stats, tyname: &str) -> R {
 /// `n` operations over an alphabet (`wide`, 0 = default); every token is looked up again every
 /// `sweep` steps and at the end (the newest token after every step)
 fn run_ops_n<T: Val>(cs: &mut Cs, st: &mut Stats, tyname: &str, n: usize, wide: usize, sweep: usize) -> R {
-    let mut s: Storage<T> = Storage::new();
+    // both constructors
+    let mut s: Storage<T> = if n % 2 == 0 { Storage::new() } else { Storage::default() };
     let mut model: Vec<T> = vec![];
     let mut tokens: Vec<Token<T>> = vec![];
     let mut log = vec![];
